@@ -105,7 +105,7 @@ func (d *DataContext) Retracted() []string       { return d.Inner.Retracted() }
 func (d *DataContext) Reset()                    { d.Inner.Reset() }
 
 func (d *DataContext) Complete() {
-	d.Sink.Step(&Event{Kind: "complete", Write: true})
+	d.Sink.Step(&Event{Kind: "complete"})
 	d.Inner.Complete()
 }
 
